@@ -162,6 +162,14 @@ def fold_static(tree):
                     else:
                         args.append(a)
                 node.args = args
+            # list.append(x, v) -> x.append(v): the unbound method of a built-in container applied to its receiver
+            if isinstance(node.func, ast.Attribute) and isinstance(node.func.value, ast.Name) \
+                    and node.func.value.id in ("list", "dict", "set") and node.args and not node.func.attr.startswith("__") \
+                    and not any(isinstance(a, ast.Starred) for a in node.args) \
+                    and node.func.attr not in ("fromkeys",):
+                return ast.copy_location(ast.Call(
+                    func=ast.Attribute(value=node.args[0], attr=node.func.attr, ctx=ast.Load()), args=list(node.args[1:]),
+                    keywords=list(node.keywords)), node)
             return node
 
         def visit_Expr(self, node):
@@ -185,6 +193,17 @@ def fold_static(tree):
                     node.value = ast.copy_location(ast.Call(
                         func=ast.Attribute(value=x, attr=nm, ctx=ast.Load()), args=rest, keywords=list(c.func.keywords)), c)
                     return node
+            # operator.setitem(x, i, v) / operator.delitem(x, i) / operator.imul(x, n) as statements
+            if isinstance(c, ast.Call) and norm_(c.func) in ("operator.setitem", "setitem") and len(c.args) == 3 and not c.keywords:
+                return ast.copy_location(ast.Assign(
+                    targets=[ast.Subscript(value=c.args[0], slice=c.args[1], ctx=ast.Store())], value=c.args[2]), node)
+            if isinstance(c, ast.Call) and norm_(c.func) in ("operator.delitem", "delitem") and len(c.args) == 2 and not c.keywords:
+                return ast.copy_location(ast.Delete(targets=[ast.Subscript(value=c.args[0], slice=c.args[1], ctx=ast.Del())]), node)
+            if isinstance(c, ast.Call) and norm_(c.func) in ("operator.imul", "imul", "operator.iadd", "iadd") and len(c.args) == 2 \
+                    and not c.keywords and isinstance(c.args[0], ast.Name):
+                op = ast.Mult() if norm_(c.func).endswith("imul") else ast.Add()
+                return ast.copy_location(ast.AugAssign(target=ast.Name(id=c.args[0].id, ctx=ast.Store()), op=op,
+                                                       value=c.args[1]), node)
             if isinstance(c, ast.Call) and isinstance(c.func, ast.Name) and c.func.id == "setattr" and len(c.args) == 3 \
                     and not c.keywords and isinstance(c.args[1], ast.Constant) and isinstance(c.args[1].value, str) \
                     and c.args[1].value.isidentifier():
@@ -200,6 +219,29 @@ def fold_static(tree):
                 if isinstance(tg, (ast.Attribute, ast.Subscript)) and not isinstance(tg.ctx, ast.Store):
                     tg.ctx = ast.Store()
     return t
+
+
+def _guards_to_ifs(body):
+    """helper body in which leading guards `if c: return` are rewritten as `if not c: <rest>` (so that it can be spliced
+    into a caller); None if a bare `return` remains anywhere else"""
+    out = []
+    for i, b in enumerate(body):
+        if isinstance(b, ast.If) and not b.orelse and len(b.body) == 1 and isinstance(b.body[0], ast.Return) \
+                and b.body[0].value is None:
+            rest = _guards_to_ifs(body[i + 1:])
+            if rest is None:
+                return None
+            if rest:
+                t = b.test.operand if isinstance(b.test, ast.UnaryOp) and isinstance(b.test.op, ast.Not) \
+                    else ast.UnaryOp(op=ast.Not(), operand=b.test)
+                out.append(ast.copy_location(ast.If(test=t, body=rest, orelse=[]), b))
+            return out
+        if isinstance(b, ast.Return) and b.value is None and i == len(body) - 1:
+            return out
+        if any(isinstance(x, ast.Return) for x in ast.walk(b)):
+            return None
+        out.append(b)
+    return out
 
 
 def inline_helpers(fn, find_method, max_body=12, only=None):
@@ -244,9 +286,18 @@ def inline_helpers(fn, find_method, max_body=12, only=None):
                     h.body = rewrite(h.body)
             if isinstance(s, ast.Expr):
                 h = helper_of(s.value)
+                # called for its effects, the value dropped: a final `return <expr>` is just the evaluation of <expr>
+                if h is not None and h.body and isinstance(h.body[-1], ast.Return) and h.body[-1].value is not None \
+                        and sum(1 for x in ast.walk(h) if isinstance(x, ast.Return) and x.value is not None) == 1:
+                    h = clone(h)
+                    h.body[-1] = ast.copy_location(ast.Expr(value=h.body[-1].value), h.body[-1])
                 if h is not None and not any(isinstance(x, ast.Return) and x.value is not None for x in ast.walk(h)):
                     m = bind(h, s.value)
                     body = [b for b in h.body if not (isinstance(b, ast.Expr) and isinstance(b.value, ast.Constant))]
+                    body = _guards_to_ifs(body)
+                    if body is None:
+                        out.append(s)      # a bare `return` somewhere else than in a leading guard: not spliced
+                        continue
                     for b in body:
                         nb = substitute_stmt(b, m)
                         ast.copy_location(nb, s)
